@@ -1264,7 +1264,8 @@ static void move_case_return()
          && prev->GetPrev()->IsNewline())
       {
          // Find the end of the return statement
-         while (pc->IsNot(CT_SEMICOLON))
+         while (  pc->IsNotNullChunk()
+               && pc->IsNot(CT_SEMICOLON))
          {
             if (  pc->Is(CT_CASE)
                || pc->Is(CT_BRACE_CLOSE))
@@ -1595,7 +1596,8 @@ static void process_if_chain(Chunk *br_start)
 
       if (pc->Is(CT_ELSEIF))
       {
-         while (  pc->IsNot(CT_VBRACE_OPEN)
+         while (  pc->IsNotNullChunk()
+               && pc->IsNot(CT_VBRACE_OPEN)
                && pc->IsNot(CT_BRACE_OPEN))
          {
             pc = pc->GetNextNcNnl(E_Scope::PREPROC);
